@@ -18,6 +18,7 @@ type TrackConn struct {
 	once   sync.Once
 	mu     sync.Mutex
 	closed bool
+	ID     int // number of this transport within the scenario (1, 2, ...)
 
 	// scripted transport failures (cleartext connections only): WFail lists the command
 	// occurrences whose write fails; a CONTENT key fails the first write of that message's content.
@@ -130,8 +131,13 @@ func (t *TrackConn) Read(p []byte) (int, error) {
 
 // NewTrackConn wraps c.
 func NewTrackConn(c net.Conn, r *rec.Recorder) *TrackConn {
-	r.Emit("open")
-	return &TrackConn{Conn: c, rec: r}
+	return NewTrackConnID(c, r, 1)
+}
+
+// NewTrackConnID wraps c as the id-th transport of the scenario.
+func NewTrackConnID(c net.Conn, r *rec.Recorder, id int) *TrackConn {
+	r.Emit("open", "cid", id)
+	return &TrackConn{Conn: c, rec: r, ID: id}
 }
 
 // Close records the first close.
@@ -140,7 +146,7 @@ func (t *TrackConn) Close() error {
 		t.mu.Lock()
 		t.closed = true
 		t.mu.Unlock()
-		t.rec.Emit("cclose")
+		t.rec.Emit("cclose", "cid", t.ID)
 	})
 	return t.Conn.Close()
 }
